@@ -5,7 +5,7 @@ import OpusProofs.SilkParamsRangeBridge
   `OpusProps.C03.silkSyms_decode_indices_in_range`) imply the hypothesis `FrameOk` of the synthesis theorems.
 -/
 namespace Opus.SilkCoreProofs
-open Opus Opus.SilkParams Opus.SilkCore Opus.Gen
+open Opus Opus.SilkParams Opus.SilkCore Opus.Gen Opus.Frozen
 
 /-- The decoded side information of the symbol layer, as the input record of the synthesis model
     (`psDec->indices` after `silk_decode_indices`, `pulses[]` after `silk_decode_pulses`). -/
